@@ -95,9 +95,19 @@ def _real_axis_cut(z):
         return complex(z.real, 0.0)
     return z
 
+def _imag_axis_cut(z):
+    # Likewise for the cuts of atan and asinh on the imaginary axis,
+    # |y| > 1: mp continues from the right above i and from the left
+    # below -i.
+    if z.real == 0 and abs(z.imag) > 1:
+        if z.imag < 0:
+            return complex(-0.0, z.imag)
+        return complex(0.0, z.imag)
+    return z
+
 acos = _mathfun(math.acos, lambda z: cmath.acos(_real_axis_cut(z)))
 asin = _mathfun(math.asin, lambda z: cmath.asin(_real_axis_cut(z)))
-atan = _mathfun_real(math.atan, cmath.atan)
+atan = _mathfun_real(math.atan, lambda z: cmath.atan(_imag_axis_cut(z)))
 
 cosh = _mathfun_real(math.cosh, cmath.cosh)
 sinh = _mathfun_real(math.sinh, cmath.sinh)
